@@ -71,7 +71,8 @@ CONSTANTS Configs,   \* set of <<N, cp, u>> for which pipeline cases are generat
           NDense,    \* number of pseudo-random dense data patterns per length
           LayMode,   \* "none" | "one" | "three" | "basis" | "all3" : tap layouts per configuration
           Block,     \* BOOLEAN: also block-static channels (taps of OFDM symbol s multiplied by i^s)
-          HistValid, \* set of valid <<N, cp, u>> a live object is constructed with / re-configured to
+          HistFirst, \* set of valid <<N, cp, u>> a live object is constructed with (partitions the histories)
+          HistValid, \* set of valid <<N, cp, u>> a live object is re-configured to
           HistBad,   \* set of invalid <<N, cp, u>> passed to set_parameters (must be rejected, object unchanged)
           HistMax,   \* number of calls in a history (constructor included)
           Seed,      \* seeds the in-spec LCG
@@ -345,7 +346,7 @@ SetParameters(c) ==
               /\ obj' = IF Dev.RejectedSetHalfUpdates /\ c[2] \in 0..c[1]
                           THEN [obj EXCEPT !.N = c[1], !.cp = c[2]] ELSE obj
     /\ UNCHANGED pc /\ UNCHANGED Pipeline
-NewObject   == \E c \in HistValid : Construct(c)
+NewObject   == \E c \in HistFirst : Construct(c)
 Reconfigure == \E c \in HistValid \cup HistBad : SetParameters(c)
 StartLive   == pc = "idle" /\ hist # <<>> /\ obj = want
                /\ \E L \in Lengths(obj.u) : \E pat \in Patterns(obj.u, L) : Choose(<<obj.N, obj.cp, obj.u>>, L, pat)
